@@ -1541,6 +1541,8 @@ impl<'s> Worker<'s> {
     fn run(mut self) {
         #[cfg(feature = "verif-hooks")]
         crate::verif::start(self.stack.index);
+        #[cfg(feature = "verif-hooks")]
+        let _verif_guard = crate::verif::run_guard();
         while let Some(work) = self.get_work() {
             if let WalkState::Quit = self.run_one(work) {
                 self.quit_now();
